@@ -38,6 +38,9 @@ func (b BuildConfig) String() string {
 
 // Program is the type-checked repository plus derived representations.
 type Program struct {
+	// Normalised lists the helper functions inlined before analysis (normalise.go).
+	Normalised []string
+	overlayIn  map[string][]byte
 	Repo    string
 	Config  BuildConfig
 	Fset    *token.FileSet
@@ -121,6 +124,41 @@ func (e *loadError) Error() string { return e.msg }
 // (used only for the in-memory mutant corpus; never for the verdict on the
 // tree itself).
 func Load(dir string, bc BuildConfig, overlay map[string][]byte) (*Program, error) {
+	p, err := loadRaw(dir, bc, overlay)
+	if err != nil {
+		return nil, err
+	}
+	known := loadKnownFuncs()
+	if known == nil {
+		return p, nil
+	}
+	var notes []string
+	cur := overlay
+	for round := 1; round <= 4; round++ {
+		ov, ns := p.normaliseOnce(known, round)
+		if ov == nil {
+			break
+		}
+		merged := map[string][]byte{}
+		for k, v := range cur {
+			merged[k] = v
+		}
+		for k, v := range ov {
+			merged[k] = v
+		}
+		p2, err2 := loadRaw(dir, bc, merged)
+		if err2 != nil {
+			notes = append(notes, "normalisation abandoned in round "+fmt.Sprint(round)+" (the inlined program does not type-check: "+firstLine(err2.Error())+"); the program is analysed as it is from that round on")
+			break
+		}
+		notes = append(notes, ns...)
+		p, cur = p2, merged
+	}
+	p.Normalised = notes
+	return p, nil
+}
+
+func loadRaw(dir string, bc BuildConfig, overlay map[string][]byte) (*Program, error) {
 	env := []string{}
 	for _, e := range os.Environ() {
 		k := e
@@ -152,8 +190,9 @@ func Load(dir string, bc BuildConfig, overlay map[string][]byte) (*Program, erro
 		return nil, &loadError{"no packages loaded from " + dir}
 	}
 	p := &Program{
-		Repo:    dir,
-		Config:  bc,
+		Repo:      dir,
+		overlayIn: overlay,
+		Config:    bc,
 		ByPath:  map[string]*packages.Package{},
 		parents: map[*ast.File]map[ast.Node]ast.Node{},
 	}
